@@ -351,6 +351,41 @@ class CFG:
                 return False, p
         return True, None
 
+    def assume_edges(self, assumptions):
+        """skip_edge predicate that prunes branch edges contradicting ``assumptions``
+        ([(test_text, polarity)]): a later ``if`` on the *same* test cannot go the other way.
+        Only sound when the names in the test are not re-bound in between (caller's duty:
+        use ``stable_guards``)."""
+        amap = {t: p for t, p in assumptions}
+
+        def skip(a, b, label):
+            if a.kind in ("if", "while") and label in ("true", "false"):
+                t = unparse(a.ast.test)
+                if t in amap and amap[t] != (label == "true"):
+                    return True
+            return False
+
+        return skip
+
+    def stable_guards(self, node):
+        """Guards of ``node`` whose test reads only names that are never assigned in the
+        function body (parameters / globals): they keep their truth value afterwards."""
+        import ast as _ast
+
+        assigned = set()
+        body = self.func.body if hasattr(self.func, "body") else list(self.func)
+        for st in body:
+            for n in _ast.walk(st):
+                if isinstance(n, _ast.Name) and isinstance(n.ctx, (_ast.Store, _ast.Del)):
+                    assigned.add(n.id)
+        out = []
+        for test, pol in self.guards(node):
+            names = {n.id for n in _ast.walk(test) if isinstance(n, _ast.Name)}
+            has_call = any(isinstance(n, (_ast.Call, _ast.Attribute, _ast.Subscript)) for n in _ast.walk(test))
+            if not (names & assigned) and not has_call:
+                out.append((unparse(test), pol))
+        return out
+
     def never_after(self, start, pred):
         """No node satisfying pred is reachable from start. (True,None)/(False,path)."""
         starts = start if isinstance(start, (list, tuple, set)) else [start]
